@@ -706,3 +706,77 @@ call TOP(
 	}
 	c07Verdict(text, want, needle, span)
 }
+
+// ---- C07: the order in which calls are written ----
+
+var c07OrderCalls = [3]string{
+	`    call MAKE_VALUES()
+`,
+	`    map call SQUARE(
+        x = split MAKE_VALUES.values,
+    )
+`,
+	`    call REPORT(
+        square = SQUARE.square,
+    )
+`,
+}
+
+var c07Perms = [6][3]int{{0, 1, 2}, {0, 2, 1}, {1, 0, 2}, {1, 2, 0}, {2, 0, 1}, {2, 1, 0}}
+
+// H_C07_callOrder(perm, kind): a producer of an array, a call mapped over it
+// and a consumer of the mapped call's output, written in each of the six
+// possible orders (MRO does not require calls to be written in dependency
+// order).  The consumer's parameter is int[] (kind 0: the depth a mapped call
+// adds), int (kind 1) or int[][] (kind 2).
+//
+//	C07: the binding is accepted exactly for int[] - the verdict does not
+//	     depend on the order in which the calls are written.
+func H_C07_callOrder(perm, kind int) {
+	dst := []string{"int[]", "int", "int[][]"}[kind]
+	text := `
+stage MAKE_VALUES(
+    out int[] values,
+    src comp  "m",
+)
+
+stage SQUARE(
+    in  int x,
+    out int square,
+    src comp "s",
+)
+
+stage REPORT(
+    in  ` + dst + ` square,
+    out int r,
+    src comp "r",
+)
+
+pipeline P(
+    out int r,
+)
+{
+`
+	for i, c := range c07Perms[perm] {
+		if i > 0 {
+			text += "\n"
+		}
+		text += c07OrderCalls[c]
+	}
+	text += `
+    return (
+        r = REPORT.r,
+    )
+}
+
+call P()
+`
+	var parser Parser
+	_, _, _, err := parser.ParseSourceBytes([]byte(text), "/m/t.mro", nil, false)
+	verifCover("calls compiled in a given written order")
+	if kind == 0 {
+		verifAssert(err == nil, "C07: the output of a mapped call bound to an array parameter is accepted in whatever order the calls are written")
+	} else {
+		verifAssert(err != nil, "C07: the output of a mapped call bound at the wrong array depth is rejected in whatever order the calls are written")
+	}
+}
